@@ -96,6 +96,10 @@ pub(super) async fn receive_batch_multipart(
                 {
                     let content_type = field.content_type().map(ToString::to_string);
 
+                    if opts.max_num_files.is_some_and(|max_num_files| files.len() >= max_num_files) {
+                        return Err(ParseRequestError::PayloadTooLarge);
+                    }
+
                     #[cfg(feature = "tempfile")]
                     let content = {
                         use std::io::SeekFrom;
